@@ -11,7 +11,7 @@ Ev == Traces[tid].ev
 TraceInit ==
     /\ tid \in 1..Len(Traces)
     /\ l = 1
-    /\ InitWith([rules |-> Traces[tid].cfg.rules])
+    /\ InitWith([rules |-> Traces[tid].cfg.rules, dh |-> Traces[tid].cfg.dh])
 IsEvent(a) == l <= Len(Ev) /\ Ev[l].a = a /\ l' = l + 1 /\ UNCHANGED tid
 Bind == Proj' = Ev[l].obs
 TrDispatch == IsEvent("dispatch") /\ DoDispatch(Ev[l].args[1], Ev[l].args[2]) /\ Bind
